@@ -58,7 +58,7 @@ def signals (pol : Policy) (s : St) : Label → Bool
   | .setMaxFrame v =>
     !(s.closed || s.panicked) &&
     (match s.side with
-     | .client => true
+     | .client => !(decide (v < 16384) || decide (16777215 < v))   -- [c08l9] the client validates too
      | .server => !(decide (v < 16384) || decide (16777215 < v))) &&
     pol.setOther
 
